@@ -4,7 +4,7 @@ with what is actually built; properties listed in BUILT are claimed, the others 
 with the reason 'check not built yet' (a temporary state while the harness is under construction)."""
 import json, subprocess
 
-BUILT = ["C01", "C02", "C13"]
+BUILT = ["C01", "C02", "C04", "C05", "C06", "C13", "C14"]
 
 HOOK_COMMITS = ["d149e00"]
 
@@ -17,6 +17,22 @@ P = {
    technique="property-based differential testing of every generated successor against the oracle's move execution, over chains of generated successors (proptest, shrinking) and exhaustive castling / en passant families",
    text="For every parent position explored (same generators as C01, plus promotion-rich walks so that parents which were themselves promotions are frequent) every successor is compared field by field (64 squares, side, four rights, en passant target, both cached king squares, sentinel ring) with the oracle's apply(), and the carried descriptor must have a promotion piece iff the move promotes.",
    note="Trusted base: the oracle's apply(); validated through perft totals (which exercise apply on millions of moves)."),
+ "C04": dict(level="exploration", design="DESIGN.md §5 C04",
+   technique="property-based testing of generated games: the UCI text-move applier against the rules oracle, the generator chain and a print/replay round trip, after every prefix (proptest, shrinking to a minimal game)",
+   text="Generated legal games (startpos, corpus FENs, constructed castle / promotion / en passant starts; weighted so that every castling, en passant by both colours, all four promotion pieces with and without capture and rook events on all four corners occur hundreds of times per run) are replayed through the engine's own `position` handler and move applier (reached through the verif hook); after every prefix the result is compared with the oracle position, the from-scratch key, the generator-chain board, and every generated successor is printed as text, replayed and compared with itself.",
+   note="Trusted base: oracle; uci::verif_play_out_position / verif_make_move are one-line pub wrappers of the private functions the UCI loop calls."),
+ "C05": dict(level="exploration", design="DESIGN.md §5 C05",
+   technique="property-based testing with a from-scratch recomputation oracle and metamorphic relations (route independence over three producers, explicit transposition pairs, single-component mutation) plus exhaustive pairwise check of the 781 Zobrist constants",
+   text="Every step of generated histories is judged by its key delta for the generator (all successors of both generation modes), the text applier and the FEN loader against the key recomputed from scratch through the hasher's public getters; equal positions reached by different producers or transposed move orders must have equal keys; positions differing in one component must have different keys; the constants are pairwise distinct (exhaustive).",
+   note="Trusted base: scratch_key (20 lines over ZobristHasher's public getters) and the oracle for position identity."),
+ "C06": dict(level="exploration", design="DESIGN.md §5 C06",
+   technique="differential testing of is_check against the oracle's forward attack test: exhaustive enumeration of the three-man basis, strided four-man enumeration, proptest-generated placements",
+   text="The complete three-man basis (2.37M placements incl. adjacent kings and every rim square) is enumerated and is_check asked for both colours; blockers are covered by a strided four-man family and random dense placements. The attack relation is local (one attacker, at most one relevant blocker per line), so the three/four-man families span its geometry; whole-board interactions are sampled.",
+   note="Trusted base: oracle.man_attacks (geometry from the attacker's side). Boards are built by the engine's public from_fen, which sets the cached king squares."),
+ "C14": dict(level="exploration", design="DESIGN.md §5 C14",
+   technique="metamorphic property-based testing (colour mirror, side-to-move negation, irrelevance of non-placement fields, bound) with an exhaustive single-piece basis",
+   text="The evaluation is a sum over pieces blended by a phase weight, so symmetry on the complete single-piece basis at every phase weight (exhaustive, 18,400 cases) plus random whole placements up to nine queens a side decides the relations; the bound is checked on every case.",
+   note="Trusted base: the oracle's mirror(); no reference evaluation is needed (relations only)."),
  "C13": dict(level="exploration", design="DESIGN.md §5 C13",
    technique="property-based differential testing of capture-only generation along chains (tree to depth 3 plus one deep line) against the oracle's legal capturing moves",
    text="Capture-only generation is applied recursively the way quiescence follows it, from roots reached by the engine's full generation (often right after a double step), with the oracle tracking the true position: move multiset = legal captures (en passant and the four capture-promotions included), successors equal the oracle's positions incl. the key delta.",
